@@ -9,10 +9,10 @@ git apply --check SEED/patch$v.diff || { echo "$res patch does not apply"; exit 
 git apply SEED/patch$v.diff
 make -j8 >/dev/null 2>&1 || { echo "$res build failed"; git checkout -q -- src include; exit 1; }
 t=$(make -k check -j8 2>&1 | grep -E "^# (PASS|FAIL|ERROR)" | tr -d '\n')
-gcc -w -I$wt/include -I$wt SEED/demo$v.c $wt/src/.libs/libsafec.a -o SEED/demo$v.bin -lpthread 2>/dev/null || gcc -w -I$wt/include -I$wt SEED/demo$v.c $wt/src/.libs/libsafec.a -o SEED/demo$v.bin
+XL="-lpthread -lm"; grep -q __wrap_malloc SEED/demo$v.c && XL="$XL -Wl,--wrap=malloc,--wrap=free"; grep -q __wrap_realloc SEED/demo$v.c && XL="$XL -Wl,--wrap=realloc"; grep -q __wrap_calloc SEED/demo$v.c && XL="$XL -Wl,--wrap=calloc"; gcc -w -I$wt/include -I$wt SEED/demo$v.c $wt/src/.libs/libsafec.a -o SEED/demo$v.bin $XL
 ( cd SEED && timeout 60 ./demo$v.bin >/dev/null 2>&1 ); with=$?
 git checkout -q -- src include
 make -j8 >/dev/null 2>&1
-gcc -w -I$wt/include -I$wt SEED/demo$v.c $wt/src/.libs/libsafec.a -o SEED/demo$v.bin -lpthread 2>/dev/null || gcc -w -I$wt/include -I$wt SEED/demo$v.c $wt/src/.libs/libsafec.a -o SEED/demo$v.bin
+XL="-lpthread -lm"; grep -q __wrap_malloc SEED/demo$v.c && XL="$XL -Wl,--wrap=malloc,--wrap=free"; grep -q __wrap_realloc SEED/demo$v.c && XL="$XL -Wl,--wrap=realloc"; grep -q __wrap_calloc SEED/demo$v.c && XL="$XL -Wl,--wrap=calloc"; gcc -w -I$wt/include -I$wt SEED/demo$v.c $wt/src/.libs/libsafec.a -o SEED/demo$v.bin $XL
 ( cd SEED && timeout 60 ./demo$v.bin >/dev/null 2>&1 ); without=$?
 echo "$res tests[$t] demo_with=$with demo_without=$without"
